@@ -43,7 +43,7 @@ import (
 
 // Mut is one structural mutation of the ciphertext tree.
 type Mut struct {
-	Op     string `json:"op"`     // remove | dup | dupalt | nest | attr | rmattr | text | b64 | comment | cdata | child | rename | space | keychain | moveout | movein
+	Op     string `json:"op"`     // remove | dup | dupalt | nest | attr | rmattr | text | b64 | comment | cdata | child | rename | space | keychain | moveout | movein | retrieval | setid | addkey
 	Target string `json:"target"` // data | data.em | data.ki | data.cd | data.cv | key | key.em | key.dm | key.ki | key.x509 | key.cd | key.cv
 	Arg    string `json:"arg,omitempty"`
 	N      int    `json:"n,omitempty"`
@@ -59,7 +59,7 @@ type BMut struct {
 
 // Case is one attacked ciphertext.
 type Case struct {
-	Kind  string `json:"kind"`  // control | len | pad | gcm | cert | plain | mut | xml
+	Kind  string `json:"kind"`  // control | len | pad | gcm | cert | plain | retr | mut | xml
 	Entry string `json:"entry"` // decrypt | decrypt-key | sp
 
 	Block     string `json:"block,omitempty"`     // aes128-cbc | aes192-cbc | aes256-cbc | tripledes-cbc | aes128-gcm
@@ -95,6 +95,15 @@ type Case struct {
 	Cert string `json:"cert,omitempty"` // match | match-wrapped | sp2 | attacker | rsa1024 | ec | garbage | empty | notb64 | truncated
 	// CertSib: another X509Data child next to the certificate ("" | issuerserial-before | issuerserial-after | ski-before | ski-after | subjectname-before | secondcert-match-after)
 	CertSib string `json:"cert_sib,omitempty"`
+	// kind retr: EncryptedData/KeyInfo/RetrievalMethod/@URI (HasURI) x the Id attribute of the EncryptedKey (HasKeyID)
+	// x an optional second EncryptedKey for another recipient placed before the real one
+	URI       string `json:"uri,omitempty"`
+	HasURI    bool   `json:"has_uri,omitempty"`
+	KeyID     string `json:"key_id,omitempty"`
+	HasKeyID  bool   `json:"has_key_id,omitempty"`
+	SecondKey string `json:"second_key,omitempty"` // "" | before | after
+	// sp entry: configuration of the ServiceProvider the clause does not mention
+	SPAllowIDPInitiated bool `json:"sp_allow_idp_initiated,omitempty"`
 	// kind mut
 	Muts []Mut `json:"muts,omitempty"`
 	// kind xml
@@ -144,6 +153,23 @@ var algPool = []string{
 	refenc.DigestSHA1, refenc.LibDigestSHA256, refenc.DigestSHA256, refenc.LibDigestSHA512, refenc.LibDigestRIPEMD160, refenc.MGF1SHA1,
 	"", "x", " ", refenc.AES128CBC + " ", strings.ToUpper(refenc.AES128CBC), "http://www.w3.org/2001/04/xmlenc#kw-aes128",
 	"http://www.w3.org/2001/04/xmlenc#aes128-cb", "http://www.w3.org/2000/09/xmldsig#md5", "urn:x",
+}
+
+// retrievalURIs: what an attacker may put into ds:RetrievalMethod/@URI (and, without
+// the leading '#', into an Id attribute).  Benign ones first.
+var retrievalURIs = []string{
+	"#_c11-key", "#_c11-other", "#nomatch", "", "#", "_c11-key", "http://example.com/keys#_c11-key", "#_c11-key#x",
+	"#it's", "#key[1", "#key]1", "#]", "#[", "#a'][", "#\"", "#a\"b'c", "#x' or '1'='1", "#'", "#''", "#[@Id='x']", "#x'][@y='",
+	"#../..", "#//*", "#*", "#.", "#@Id", "#a/b", "#a|b", "#a b", "# ", "#\t", "#%5B", "#&", "#<", "#é", "#\U0001F600", "#(", "#)", "#text()", "#a[b]c", "#a=b", "#{}", "#\\",
+	"#" + strings.Repeat("k", 300), "#" + strings.Repeat("[", 40), "#" + strings.Repeat("'", 41),
+}
+
+func keyIDPool() []string {
+	out := []string{"_c11-key", "", "_c11-other"}
+	for _, u := range retrievalURIs[8:] {
+		out = append(out, strings.TrimPrefix(u, "#"))
+	}
+	return out
 }
 
 var registered = map[string]bool{
@@ -426,6 +452,11 @@ func (c Case) build() (*tree, error) {
 		}
 	}
 
+	if c.HasKeyID && key != nil {
+		key.RemoveAttr("Id")
+		key.CreateAttr("Id", c.KeyID)
+	}
+
 	// assemble
 	t.ea = etree.NewElement("saml:EncryptedAssertion")
 	t.ea.CreateAttr("xmlns:saml", refenc.NSSAML)
@@ -440,7 +471,57 @@ func (c Case) build() (*tree, error) {
 			data.InsertChildAt(1, ki)
 		}
 	}
+	if c.SecondKey != "" && key != nil {
+		t.addKey(c.SecondKey == "before", "_c11-other", c.Seed)
+	}
+	if c.HasURI {
+		t.addRetrieval(c.URI, true)
+	}
 	return t, nil
+}
+
+// addRetrieval puts a ds:RetrievalMethod into EncryptedData/KeyInfo (creating the KeyInfo).
+func (t *tree) addRetrieval(uri string, first bool) {
+	ki := t.data.FindElement("./KeyInfo")
+	if ki == nil {
+		ki = etree.NewElement("ds:KeyInfo")
+		ki.CreateAttr("xmlns:ds", refenc.NSDsig)
+		t.data.InsertChildAt(1, ki)
+	}
+	rm := etree.NewElement("ds:RetrievalMethod")
+	rm.CreateAttr("xmlns:ds", refenc.NSDsig)
+	rm.CreateAttr("Type", refenc.NSXenc+"EncryptedKey")
+	rm.CreateAttr("URI", uri)
+	if first {
+		ki.InsertChildAt(0, rm)
+	} else {
+		ki.AddChild(rm)
+	}
+}
+
+// addKey adds an EncryptedKey meant for ANOTHER recipient (same shape as the real one,
+// other Id, cipher value wrapped to sp2's certificate) next to the real key.
+func (t *tree) addKey(before bool, id string, seed []byte) {
+	if t.key == nil || t.key.Parent() == nil {
+		return
+	}
+	other := t.key.Copy()
+	other.RemoveAttr("Id")
+	other.CreateAttr("Id", id)
+	if tr, err := refenc.ReadTransport(t.key); err == nil {
+		if w, err := refenc.WrapKey(tr, newStream(seed, "otherkey"), &fix.Get("sp2").RSA().PublicKey, expand(seed, "otherck", 16)); err == nil {
+			setCV(other, w)
+		}
+	}
+	if x := other.FindElement("./KeyInfo/X509Data/X509Certificate"); x != nil {
+		x.SetText(certText("sp2"))
+	}
+	par := t.key.Parent()
+	if before {
+		par.InsertChildAt(t.key.Index(), other)
+	} else {
+		par.InsertChildAt(t.key.Index()+1, other)
+	}
 }
 
 // ---------------------------------------------------------------- structural mutations
@@ -606,6 +687,18 @@ func (t *tree) apply(m Mut, seed []byte) bool {
 		if inner != nil {
 			cur.AddChild(inner)
 		}
+	case "retrieval": // ds:RetrievalMethod URI=Arg in EncryptedData/KeyInfo (N odd: after what is there)
+		t.addRetrieval(m.Arg, m.N%2 == 0)
+	case "setid": // Id attribute of the target (EncryptedKey / EncryptedData) := Arg; N odd: removed
+		el.RemoveAttr("Id")
+		if m.N%2 == 0 {
+			el.CreateAttr("Id", m.Arg)
+		}
+	case "addkey": // a second EncryptedKey, for another recipient, Id=Arg, before (N even) or after the real one
+		if t.key == nil || t.key.Parent() == nil {
+			return false
+		}
+		t.addKey(m.N%2 == 0, m.Arg, seed)
 	case "moveout": // nested key becomes a sibling
 		if t.key == nil || t.key.Parent() == nil || t.key.Parent() == t.ea {
 			return false
@@ -740,7 +833,7 @@ func (c Case) describe() string {
 			s += fmt.Sprintf("(%d)", len(c.KeyBytes))
 		}
 	} else {
-		s += fmt.Sprintf(" spkey=%s sibling=%v plaintext=%s", c.SPKey, c.Sibling, c.PlainKind)
+		s += fmt.Sprintf(" spkey=%s allow-idp-initiated=%v sibling=%v plaintext=%s", c.SPKey, c.SPAllowIDPInitiated, c.Sibling, c.PlainKind)
 	}
 	switch c.Kind {
 	case "len":
@@ -751,6 +844,8 @@ func (c Case) describe() string {
 		s += fmt.Sprintf(" op=%s pos=%d", c.GCMOp, c.GCMPos)
 	case "cert":
 		s += " embedded-cert=" + c.Cert + " x509data-sibling=" + c.CertSib
+	case "retr":
+		s += fmt.Sprintf(" retrieval-uri=%q(present=%v) key-id=%q(present=%v) second-key=%q", c.URI, c.HasURI, c.KeyID, c.HasKeyID, c.SecondKey)
 	case "mut":
 		s += fmt.Sprintf(" muts=%v", c.Muts)
 	case "xml":
@@ -796,6 +891,13 @@ func wellFormed(c Case) bool {
 	}
 	switch c.Kind {
 	case "control", "len", "plain", "mut":
+	case "retr":
+		if c.Transport == "direct" || len(c.URI) > 2000 || len(c.KeyID) > 2000 {
+			return false
+		}
+		if c.SecondKey != "" && c.SecondKey != "before" && c.SecondKey != "after" {
+			return false
+		}
 	case "pad":
 		if s.GCM || c.NBlocks < 0 || c.NBlocks > 64 || c.Last < 0 || c.Last > 255 {
 			return false
@@ -818,7 +920,7 @@ func wellFormed(c Case) bool {
 // is structurally what refenc built, the right key is handed over and the wrapped key
 // is the content key.
 func (c Case) intact() bool {
-	if c.Kind == "mut" || c.Kind == "xml" || len(c.Muts) > 0 || c.HasWrappedKey || (c.Kind == "len" && c.OnKey) {
+	if c.Kind == "mut" || c.Kind == "xml" || c.Kind == "retr" || c.HasURI || c.HasKeyID || c.SecondKey != "" || len(c.Muts) > 0 || c.HasWrappedKey || (c.Kind == "len" && c.OnKey) {
 		return false
 	}
 	// Whether the package manages to unwrap the key at all (digest / MGF reading) is
@@ -916,6 +1018,30 @@ func check(c Case) pbt.Result {
 	if c.Kind == "mut" && applied == 0 {
 		return pbt.Result{Skip: true}
 	}
+	hostile := func(v string) bool { return strings.ContainsAny(v, "'[]\"") }
+	if c.HasURI {
+		switch {
+		case hostile(c.URI):
+			cl = append(cl, "retrieval:uri-with-quote-or-bracket")
+		case strings.HasPrefix(c.URI, "#"):
+			cl = append(cl, "retrieval:uri-fragment")
+		default:
+			cl = append(cl, "retrieval:uri-other")
+		}
+		if c.HasKeyID && c.URI == "#"+c.KeyID {
+			cl = append(cl, "retrieval:uri-matches-key-id")
+		}
+	}
+	if c.HasKeyID {
+		if hostile(c.KeyID) {
+			cl = append(cl, "keyid:with-quote-or-bracket")
+		} else {
+			cl = append(cl, "keyid:plain")
+		}
+	}
+	if c.SecondKey != "" {
+		cl = append(cl, "keys:two-recipients")
+	}
 	if c.Entry == "decrypt-key" && t.key == nil {
 		return pbt.Result{Skip: true}
 	}
@@ -974,6 +1100,11 @@ func check(c Case) pbt.Result {
 		res.NonTrivial = reaches(firstByTag(root, "EncryptedData"))
 		resp := responseAround(wire)
 		sp := newSP(c.SPKey)
+		sp.AllowIDPInitiated = c.SPAllowIDPInitiated
+		if c.SPAllowIDPInitiated {
+			cl = append(cl, "spconf:allow-idp-initiated")
+			res.Classes = cl
+		}
 		var got *saml.Assertion
 		err, panicked := guard(func() error {
 			var err error
@@ -1352,15 +1483,35 @@ func genEntry(t *rapid.T, c *Case) {
 	if e == "sp" {
 		c.Sibling = rapid.Bool().Draw(t, "sibling")
 		c.SPKey = rapid.SampledFrom([]string{"sp", "sp", "sp", "spec"}).Draw(t, "sp-key")
+		c.SPAllowIDPInitiated = rapid.Bool().Draw(t, "allow-idp-initiated")
 	} else {
 		genKeyKind(t, c)
 	}
 }
 
+// genFragment draws a RetrievalMethod URI (withHash) or an Id value: from the pool, or
+// composed of the characters that matter to path / query builders.
+func genFragment(t *rapid.T, label string, withHash bool) string {
+	var v string
+	if rapid.IntRange(0, 2).Draw(t, label+"-pool") > 0 {
+		v = rapid.SampledFrom(retrievalURIs).Draw(t, label)
+		if !withHash {
+			v = strings.TrimPrefix(v, "#")
+		}
+		return v
+	}
+	parts := rapid.SliceOfN(rapid.SampledFrom([]string{"a", "k1", "_c11-key", "'", "\"", "[", "]", "@", "=", "/", "*", ".", " ", "(", ")", "|", "&", "#", "%27", "é"}), 0, 8).Draw(t, label+"-parts")
+	v = strings.Join(parts, "")
+	if withHash && rapid.IntRange(0, 4).Draw(t, label+"-hash") > 0 {
+		v = "#" + v
+	}
+	return v
+}
+
 func genMut(t *rapid.T, i int) Mut {
 	l := fmt.Sprintf("m%d-", i)
 	m := Mut{Target: rapid.SampledFrom(roles).Draw(t, l+"target")}
-	m.Op = rapid.SampledFrom([]string{"remove", "dup", "dupalt", "nest", "attr", "attr", "attr", "rmattr", "text", "b64", "b64", "comment", "cdata", "child", "rename", "space", "keychain", "moveout", "movein"}).Draw(t, l+"op")
+	m.Op = rapid.SampledFrom([]string{"remove", "dup", "dupalt", "nest", "attr", "attr", "attr", "rmattr", "text", "b64", "b64", "comment", "cdata", "child", "rename", "space", "keychain", "moveout", "movein", "retrieval", "retrieval", "setid", "addkey"}).Draw(t, l+"op")
 	switch m.Op {
 	case "attr", "dupalt", "keychain":
 		m.Arg = rapid.SampledFrom(algPool).Draw(t, l+"alg")
@@ -1368,6 +1519,18 @@ func genMut(t *rapid.T, i int) Mut {
 			m.Arg = rapid.SampledFrom(algPool[:9]).Draw(t, l+"chain-alg")
 			m.N = rapid.IntRange(1, 60).Draw(t, l+"n")
 		}
+	case "retrieval":
+		m.Target = "data"
+		m.Arg = genFragment(t, l+"uri", true)
+		m.N = rapid.IntRange(0, 1).Draw(t, l+"n")
+	case "setid":
+		m.Target = rapid.SampledFrom([]string{"key", "key", "key", "data"}).Draw(t, l+"id-target")
+		m.Arg = genFragment(t, l+"id", false)
+		m.N = rapid.IntRange(0, 3).Draw(t, l+"n")
+	case "addkey":
+		m.Target = "key"
+		m.Arg = genFragment(t, l+"id", false)
+		m.N = rapid.IntRange(0, 1).Draw(t, l+"n")
 	case "text":
 		m.Arg = rapid.SampledFrom([]string{"", " ", "=", "A", "AA", "AAA", "AAAA", "AAAA AAAA", "AAAA\nAAAA", "!!!!", "AAAA====", "AAA=", "é", "QUJD" + strings.Repeat("QUJD", 11)}).Draw(t, l+"text")
 	case "b64", "comment":
@@ -1384,7 +1547,7 @@ func genMut(t *rapid.T, i int) Mut {
 
 func gen(t *rapid.T) Case {
 	var c Case
-	c.Kind = rapid.SampledFrom([]string{"len", "len", "len", "pad", "pad", "gcm", "gcm", "cert", "plain", "mut", "mut", "mut", "mut", "xml", "xml", "control"}).Draw(t, "kind")
+	c.Kind = rapid.SampledFrom([]string{"len", "len", "len", "pad", "pad", "gcm", "gcm", "cert", "plain", "retr", "retr", "mut", "mut", "mut", "mut", "xml", "xml", "control"}).Draw(t, "kind")
 	if c.Kind == "xml" {
 		c.Entry = "decrypt"
 		files := append([]string{"gen", "gen", "gen"}, corpusFiles()...)
@@ -1423,12 +1586,34 @@ func gen(t *rapid.T) Case {
 		s = spec(c.Block)
 		c.Key = genBytes(t, s.KeyLen, "key2")
 		c.IV = genBytes(t, s.IVLen, "iv2")
-	case "cert":
+	case "cert", "retr":
 		if c.Transport == "direct" {
 			c.Transport, c.Digest = "pkcs1", ""
 		}
 	}
 	genEntry(t, &c)
+	if c.Kind == "retr" {
+		if c.Entry != "sp" && rapid.IntRange(0, 2).Draw(t, "retr-sp") > 0 {
+			c.Entry, c.KeyKind, c.KeyBytes = "sp", "", nil
+			c.Sibling = rapid.Bool().Draw(t, "sibling")
+			c.SPKey = "sp"
+			c.SPAllowIDPInitiated = rapid.Bool().Draw(t, "allow-idp-initiated")
+		}
+		c.HasURI = rapid.IntRange(0, 9).Draw(t, "has-uri") > 0
+		if c.HasURI {
+			c.URI = genFragment(t, "uri", true)
+		}
+		switch rapid.IntRange(0, 3).Draw(t, "key-id-class") {
+		case 0: // Id attribute absent
+		case 1:
+			c.HasKeyID, c.KeyID = true, "_c11-key"
+		case 2: // exactly what the URI points at
+			c.HasKeyID, c.KeyID = true, strings.TrimPrefix(c.URI, "#")
+		default:
+			c.HasKeyID, c.KeyID = true, genFragment(t, "key-id", false)
+		}
+		c.SecondKey = rapid.SampledFrom([]string{"", "", "before", "after"}).Draw(t, "second-key")
+	}
 	switch c.Kind {
 	case "len":
 		max := s.IVLen + 4*s.Block + 1
@@ -1659,6 +1844,75 @@ func enumPlainSP(_ string, emit func(Case)) {
 	}
 }
 
+// every RetrievalMethod URI of the pool x Id of the EncryptedKey {fixed, exactly the fragment, absent}
+// x layout x one or two recipients, through the SP; the nested layout also through Decrypt
+func enumRetrieval(_ string, emit func(Case)) {
+	i := 0
+	for _, uri := range retrievalURIs {
+		for _, idv := range []string{"fixed", "match", "absent"} {
+			for _, sib := range []bool{false, true} {
+				for _, second := range []string{"", "before"} {
+					c := baseCase("retr", "sp", []string{"aes128-cbc", "aes128-gcm"}[i%2], "oaep-mgf1p", "sha1", fmt.Sprintf("retr/%d", i))
+					c.URI, c.HasURI, c.Sibling, c.SecondKey = uri, true, sib, second
+					c.SPAllowIDPInitiated = i%3 == 0
+					switch idv {
+					case "fixed":
+						c.HasKeyID, c.KeyID = true, "_c11-key"
+					case "match":
+						c.HasKeyID, c.KeyID = true, strings.TrimPrefix(uri, "#")
+					}
+					i++
+					emit(c)
+					if !sib && second == "" {
+						d := c
+						d.Entry, d.KeyKind = "decrypt", "rsa-ptr"
+						emit(d)
+					}
+				}
+			}
+		}
+	}
+	// hostile Id values without any RetrievalMethod
+	for _, id := range keyIDPool() {
+		for _, sib := range []bool{false, true} {
+			c := baseCase("retr", "sp", "aes128-cbc", "pkcs1", "", "retr-id/"+id)
+			c.HasKeyID, c.KeyID, c.Sibling = true, id, sib
+			emit(c)
+		}
+	}
+}
+
+// EncryptionMethod / DigestMethod present twice (identical, or a differing copy first)
+func enumDupMethods(_ string, emit func(Case)) {
+	i := 0
+	for _, target := range []string{"data.em", "key.em", "key.dm"} {
+		for _, alt := range []string{"=", refenc.AES256CBC, refenc.RSA15, refenc.LibDigestSHA256, refenc.DigestSHA1, "", "x"} {
+			for _, tr := range []tcombo{{"oaep-mgf1p", "sha1"}, {"oaep-mgf1p", "sha256"}, {"oaep11", "sha1"}} {
+				for _, variant := range []string{"decrypt", "decrypt-key", "sp-nested", "sp-sibling"} {
+					c := baseCase("mut", "decrypt", "aes128-cbc", tr.transport, tr.digest, fmt.Sprintf("dupmethod/%d", i))
+					i++
+					if alt == "=" {
+						c.Muts = []Mut{{Op: "dup", Target: target}}
+					} else {
+						c.Muts = []Mut{{Op: "dupalt", Target: target, Arg: alt}}
+					}
+					switch variant {
+					case "decrypt":
+						c.KeyKind = "rsa-ptr"
+					case "decrypt-key":
+						c.Entry, c.KeyKind = "decrypt-key", "rsa-ptr"
+					case "sp-nested":
+						c.Entry = "sp"
+					case "sp-sibling":
+						c.Entry, c.Sibling = "sp", true
+					}
+					emit(c)
+				}
+			}
+		}
+	}
+}
+
 // every repository document, unmutated, with every key type
 func enumFiles(_ string, emit func(Case)) {
 	for _, f := range corpusFiles() {
@@ -1682,7 +1936,7 @@ func enumFiles(_ string, emit func(Case)) {
 
 var prop = &pbt.Prop[Case]{
 	ID: "C11",
-	Rule: "cases: reference-built EncryptedData/EncryptedKey trees (5 block ciphers x direct / rsa-oaep-mgf1p / xmlenc11 rsa-oaep / PKCS#1 key transport, nested or sibling key) damaged by one of {replaced cipher value of chosen length, CBC value with chosen final decrypted octet, modified GCM value, embedded-certificate variant, attacker-chosen plaintext shape, 1-4 structural mutations (remove/duplicate/nest/rename elements, Algorithm attribute edits, bad base64, comments/CDATA/children inside CipherValue, chains of nested EncryptedKey, moved keys), byte mutations of repository corpus documents and of generated documents}, presented to xmlenc.Decrypt with keys of every Go type ([]byte of 0..40 octets, *rsa.PrivateKey, rsa.PrivateKey, *ecdsa.PrivateKey, string, int, nil) and to ServiceProvider.ParseXMLResponse inside an unsigned Response. " +
+	Rule: "cases: reference-built EncryptedData/EncryptedKey trees (5 block ciphers x direct / rsa-oaep-mgf1p / xmlenc11 rsa-oaep / PKCS#1 key transport, nested or sibling key) damaged by one of {replaced cipher value of chosen length, CBC value with chosen final decrypted octet, modified GCM value, embedded-certificate variant, attacker-chosen plaintext shape, ds:RetrievalMethod with benign and hostile URIs (quotes, brackets, path and query metacharacters) x EncryptedKey Id attributes (fixed / exactly the fragment / hostile / absent) x one or two recipients' keys, 1-4 structural mutations (remove/duplicate/nest/rename elements, added RetrievalMethod / Id attributes / second EncryptedKey, Algorithm attribute edits, bad base64, comments/CDATA/children inside CipherValue, chains of nested EncryptedKey, moved keys), byte mutations of repository corpus documents and of generated documents}, presented to xmlenc.Decrypt with keys of every Go type ([]byte of 0..40 octets, *rsa.PrivateKey, rsa.PrivateKey, *ecdsa.PrivateKey, string, int, nil) and to ServiceProvider.ParseXMLResponse inside an unsigned Response. " +
 		"non-trivial: the element handed over still reaches a registered decrypter (EncryptionMethod/@Algorithm registered, CipherData/CipherValue present) and the case is not an unmodified control. distinct: sha256 of the JSON case.",
 	Gen:   gen,
 	Check: check,
@@ -1694,6 +1948,8 @@ var prop = &pbt.Prop[Case]{
 		{Name: "gcm-every-bitflip-and-truncation", Each: enumGCM},
 		{Name: "embedded-certificate-variants", Each: enumCert},
 		{Name: "plaintext-shapes-through-sp", Each: enumPlainSP},
+		{Name: "retrieval-method-uris-x-key-ids-x-layouts", Each: enumRetrieval},
+		{Name: "duplicated-encryptionmethod-digestmethod", Each: enumDupMethods},
 		{Name: "repository-documents-x-key-types", Each: enumFiles},
 	},
 	Assumptions: []string{
@@ -1701,7 +1957,8 @@ var prop = &pbt.Prop[Case]{
 		"acceptance of a well-formed ciphertext is not judged here (C10 does); only: no panic, the must-reject classes, and 'returned plaintext equals the reference plaintext'",
 		"CBC values whose final octet lies between block size + 1 and the decrypted length are don't-care (W3C forbids them, the package tolerates them)",
 		"the certificate/key consistency rule is judged only for a certificate at EncryptedKey/KeyInfo/X509Data/X509Certificate and a *rsa.PrivateKey key",
-		"through the SP entry every case must end in an error because nothing in it is signed",
+		"through the SP entry every case must end in an error because nothing in it is signed (with AllowIDPInitiated on or off, RSA or EC SP key)",
+		"which EncryptedKey a RetrievalMethod selects is not judged (the property is silent); only totality and the must-reject classes are",
 		"corpus documents are read from <repo>/xmlenc/{corpus,testdata}/*.xml at run time",
 	},
 }
